@@ -261,7 +261,7 @@ def run(rep, tier):
     rep.ob("R01.5", "single-alloc-site", nadd == 1, "exactly one fetch_add allocation site (found %d)" % nadd, anda.COLL)
 
     # ------------------------------------------------------------------ R01.6 who-may-write the commit objects
-    rep.rule("R01.6", "writers of meta/ids/watermark/intent/document objects match the confirmed table (path operand resolved to constants/helpers)", floor=12)
+    rep.rule("R01.6", "writers of meta/ids/watermark/intent/document objects match the confirmed table (path operand resolved to constants/helpers); protocol steps run only from their place in the protocol", floor=20)
     TABLE = {
         ("create", "METADATA_PATH"): {"create"}, ("delete", "METADATA_PATH"): {"create"},
         ("put_bytes", "METADATA_PATH"): {"store_metadata", "store_metadata_unclaimed"},
@@ -306,6 +306,53 @@ def run(rep, tier):
         none_lit = any(o[0] == "agg" and o[1][2]["a"].get("v") == "None" for o in origins)
         some_lit = any(o[0] == "agg" and o[1][2]["a"].get("v") == "Some" for o in origins)
         rep.ob("R01.6", "versioned-update|update_impl", some_lit and not none_lit, "the document update must carry the fetched object version (Some(ver))", e.where())
+
+    # who may run a protocol step: the steps are safe only at their place in the protocol (the intent log may be retired only by a
+    # completed checkpoint - retiring it right after the in-memory replay loses acknowledged removes/updates if the process dies
+    # again before the post-open flush; the replay may run only while nothing else is admitted, i.e. from open)
+    STEP_CALLERS = {
+        "clear_mutation_intents": {"flush_inner"},          # after indexes, metadata, ids and the checkpoint are durable (R01.1)
+        "store_indexes": {"flush_inner"}, "store_ids": {"flush_inner"}, "store_metadata": {"flush_inner"},
+        "replay_mutation_intents": {"open"}, "auto_repair_indexes": {"open"},
+        "reconcile_mutation_intents": {"replay_mutation_intents"},
+        "record_mutation_intent": {"update_impl", "remove_impl"},
+    }
+    for step, allowed in sorted(STEP_CALLERS.items()):
+        sf = prog.fn(anda.COLL + "::" + step, body=False)
+        callers = {}
+        for g in prog.fns.values():
+            for e in g.calls():
+                if e.rid == sf.id or e.cid == sf.id:
+                    callers.setdefault(prog.outer_fn(g).path.rsplit("::", 1)[1], e)
+        extra = sorted(set(callers) - allowed)
+        rep.ob("R01.6", "step-callers|%s" % step, bool(callers) and not extra,
+               "%s is a step of the checkpoint / recovery protocol and may run only from %s; also called from %s" % (step, sorted(allowed), extra),
+               callers[extra[0]].where() if extra else sf.file + ":%d" % sf.line)
+
+    # index creation is re-runnable: the constructors of the three index wrappers write the index's own commit record(s) before
+    # the collection registers the index; a crash in between must leave something the same create call can run over again,
+    # so those writes overwrite (PutMode::Create would make every later open fail with AlreadyExists)
+    nctor = 0
+    for g in prog.fns.values():
+        if g.crate != "anda_db" or "/index/" not in g.file:
+            continue
+        o_ = prog.outer_fn(g)
+        if not re.search(r"^anda_db::index::\w+::\w+(::<\w+>)?::new$", o_.path):
+            continue
+        for e in g.calls_named(r"^anda_db::storage::Storage::(put_bytes|put|create)$"):
+            modes = set()
+            for a in e.args:
+                for o in g.slice_back_op(a, through=lambda ev: False):
+                    if o[0] == "agg" and (o[1][2]["a"].get("def") or "").endswith("PutMode"):
+                        modes.add(o[1][2]["a"].get("v"))
+            if e.name.endswith("::create"):
+                modes.add("Create")
+            nctor += 1
+            rep.ob("R01.6", "index-ctor-overwrites|%s" % o_.path.replace("anda_db::index::", ""), modes == {"Overwrite"},
+                   "an index constructor writes its own record with %s; it must overwrite so that index creation interrupted before the "
+                   "collection registered the index can be repeated" % sorted(modes), e.where())
+    if nctor < 4:
+        rep.fault("R01.6: only %d storage writes found in the index wrapper constructors (expected 4)" % nctor)
 
     # ------------------------------------------------------------------ R01.7 recovery order in open
     rep.rule("R01.7", "Collection::open: load_indexes < user callback < replay_mutation_intents < auto_repair_indexes; repair window bounds", floor=6)
